@@ -558,6 +558,11 @@ def c07_boundary_requests(rng):
                  ("ZINCRBY", [k, b"-inf", b"hi"]), ("ZSCORE", [k, b""]), ("ZREM", [k, b"", b""]), ("ZCARD", [k]), ("ZADD", [k, b"1e400", b"big"]), ("ZADD", [k, b"-0", b"negzero"])]
     for k in (b"st", b"missing", b"s"):
         reqs += [("SADD", [k, b"", b""]), ("SREM", [k, b"", b"nosuch"]), ("SMEMBERS", [k]), ("SCARD", [k]), ("SISMEMBER", [k, b""])]
+    # one element named MORE OFTEN than the container has elements (counts that go negative, capacities computed from them)
+    for rep_ in (2, 3, 5, 17):
+        reqs += [("SADD", [b"dup", b"c"]), ("SREM", [b"dup"] + [b"c"] * rep_), ("SADD", [b"dup", b"a", b"b"]), ("SREM", [b"dup"] + [b"b"] * rep_ + [b"a"]),
+                 ("HSET", [b"duph", b"f", b"v"]), ("HDEL", [b"duph"] + [b"f"] * rep_), ("ZADD", [b"dupz", b"1", b"m"]), ("ZREM", [b"dupz"] + [b"m"] * rep_),
+                 ("RPUSH", [b"dupl", b"x"]), ("LPOP", [b"dupl", b"%d" % rep_]), ("SET", [b"dupk", b"v"]), ("DEL", [b"dupk"] * rep_), ("EXISTS", [b"st"] * rep_), ("MGET", [b"s"] * rep_)]
     for k in (b"h", b"missing", b"s"):
         reqs += [("HGET", [k, b""]), ("HDEL", [k, b"", b"f", b"f"]), ("HGETALL", [k]), ("HKEYS", [k]), ("HVALS", [k]), ("HLEN", [k]), ("HSTRLEN", [k, b""]), ("HEXISTS", [k, b""]),
                  ("HMGET", [k, b"", b"f"]), ("HMSET", [k, b"", b""]), ("HSETNX", [k, b"", b"x"])]
